@@ -924,7 +924,14 @@ def class_scenario(rng, name):
     if timed and rules and rng.random() < 0.7:
         n, kv = rules[0]
         rules[0] = (n, [x for x in kv if x[0] != "xreply_ok"] + [("xreply_ok", rng.choice([s[0] for s in services]))])
-    trusted = bool(rules) and rng.random() < 0.15
+    stale = bool(rules) and rng.random() < 0.12
+    if stale:
+        # the first rule asks for an account that an earlier client has and a later one has not
+        # (seeded change C11-5 prepared the account name once per client in a static buffer and
+        # left the previous client's name there for a client without account)
+        k = min(range(len(rules)), key=lambda q: (rules[q][0].lower(), rules[q][0]))
+        rules[k] = (rules[k][0], [x for x in rules[k][1] if x[0] == "class"] + [("account", rng.choice(["acct", "?cct", "ac*"]))])
+    trusted = bool(rules) and not stale and rng.random() < 0.15
     if trusted:
         # the first rule in name order matches everybody and trusts the user name: the class module
         # calls back into the core from inside iauth_accept (seeded change C01-2)
@@ -939,7 +946,19 @@ def class_scenario(rng, name):
         accounts = ["bartholomew-staff:1234567890", "bartholomew-staff", "bartholomew-helper:1234567890:77", "bartholomew-s:5"]
     cfg = Cfg(timeout=tmo, services=services, rules=rules)
     scripts = {}
-    for cid in rng.sample([1, 2, 5, 7], rng.choice([1, 2])):
+    stale_ids = rng.sample([1, 2, 5, 7], 2) if stale else []
+    for cid in (stale_ids or rng.sample([1, 2, 5, 7], rng.choice([1, 2]))):
+        if stale:
+            # the first one logs in and is vouched for, the second has no account
+            ev = [("C", rng.choice(CADDRS), "1234"), ("line", "N host.example"), ("line", "u ident"), ("line", "n nick"), ("line", "U user :real name")]
+            if cid == stale_ids[0]:
+                ev.insert(1, ("line", "P :+x acct pass"))
+                ev.append(("reply", "X", "login.srv", "OK acct:7", "cur"))
+            if len(services) > 1:
+                ev.append(("reply", "X", "drone.srv", "OK", "cur"))
+            ev.append(("line", "H"))
+            scripts[cid] = ev
+            continue
         ev = [("C", rng.choice(CADDRS), "1234"), ("line", "N " + rng.choice(HOSTS)),
               ("line", "u " + (rng.choice(["~ident", "~x", "~"]) if trusted and rng.random() < 0.8 else rng.choice(IDENTS))),
               ("line", "n nick"), ("line", "U user :real name")]
@@ -1400,11 +1419,13 @@ def _gen_cases(prop, tier, seed):
                 # a service's AGAIN / MORE / NO text, a client's answer to a challenge (seeded change
                 # C08-2 wrote the would-be length of the formatted line)
                 big = lambda: "q" * rng.choice([990, 1000, 1010, 1023, 1024, 1100, 3000])
-                ev = [("C", "1.2.3.4", "1234"), ("line", "P :+x acct pass"),
+                big = lambda: "q" * rng.choice([1010, 1023, 1024, 1100, 3000])
+                ev = [("C", "1.2.3.4", "1234"), ("line", "N host.example"), ("line", "u ident"), ("line", "n nick"),
+                      ("line", "P :+x acct pass"),
                       ("reply", "X", "login.srv", rng.choice(["MORE ", "AGAIN "]) + big(), "cur"),
                       ("line", "P :" + big()),
                       ("reply", "X", "login.srv", rng.choice(["NO ", "AGAIN ", "MORE "]) + big(), "cur"),
-                      ("line", "N host.example"), ("line", "u ident"), ("line", "n nick"), ("line", "U user :real name"), ("line", "H")]
+                      ("line", "U user :real name"), ("line", "H")]
                 cfg_ = Cfg(timeout=0, services=[("login.srv", rng.choice(["login", "combined", "login-ipr"]))], rules=[])
                 cases.append(Case("c08/%d/bigtext" % i, header("xquery", cfg_) + render_schedule(rng, {5: ev}) + ["eof"],
                                   tags={"mods": "xquery"}))
@@ -1498,14 +1519,18 @@ def _gen_cases(prop, tier, seed):
             if focused:
                 # one rule, one criterion edited in place (value changed, or only its letter case), and
                 # probe clients that the rule is about
-                crit, v1, v2 = rng.choice([("hostname", "HOST.EXAMPLE", "host.example"), ("hostname", "host.example", "Host.example"),
+                focus_variants = ([("hostname", "HOST.EXAMPLE", "host.example"), ("hostname", "host.example", "Host.example"),
                                            ("hostname", "nomatch", "host.example"), ("class", "Lan", "lan"), ("class", "lan", "LAN"),
                                            ("username", "IDENT", "ident"), ("username", "ident", "Ident"),
                                            ("account", "ACCT", "acct"), ("account", "acct", "Acct"), ("account", "nomatch", "acct"),
                                            # a criterion that the new file simply no longer has (seeded change
                                            # C11-4 reloaded the touched rule in place over its old compiled state)
                                            ("address", "9.9.9.9", None), ("address", "10.0.0.0/8", None), ("hostname", "nomatch", None),
-                                           ("username", "nomatch", None), ("account", "nomatch", None), ("address", "9.9.9.9", "1.2.3.4")])
+                                           ("username", "nomatch", None), ("account", "nomatch", None), ("address", "9.9.9.9", "1.2.3.4"),
+                                           ("trust_username", "yes", None), ("trust_username", "no", "yes")])
+                # every variant in every run: the family walks through the list (a random draw left a
+                # particular variant out of a quick run about one time in ten)
+                crit, v1, v2 = focus_variants[(i // 6 + seed) % len(focus_variants)]
                 kv0 = [("class", "cls-a")] if crit != "class" else []
                 svcs = [("login.srv", "login")]
                 mk = lambda kv: Cfg(timeout=0, services=svcs, rules=[("a", [x for x in kv if x[1] is not None]), ("z", [("class", "fallback")])])
